@@ -71,6 +71,10 @@ class RowStore:
     elem_expr: Optional[ast.AST] = None
     via: List[str] = field(default_factory=list)  # call chain from the stage entry
     env: Optional[Env] = None
+    flow: Optional["RowFlow"] = None
+
+    def slice_atoms(self) -> List[Atom]:
+        return self.flow.slice_atoms(self) if self.flow is not None else []
 
     @property
     def keytexts(self) -> set:
@@ -301,7 +305,7 @@ class RowFlow:
                 # dict-mutating method on a row
                 nid = self.cfg.node_of(n)
                 keys = self.ev.eval(n.args[0], self.env) if n.args and n.func.attr in ("pop", "setdefault") else frozenset()
-                rs = RowStore(self.func, n, None, keys, None, "method:" + n.func.attr, elem_expr=n.func.value, env=self.env)
+                rs = RowStore(self.func, n, None, keys, None, "method:" + n.func.attr, elem_expr=n.func.value, env=self.env, flow=self)
                 self._fill_guards(rs, nid, n.func.value)
                 out.append(rs)
                 continue
@@ -309,7 +313,7 @@ class RowFlow:
                 if isinstance(t, ast.Subscript) and not isinstance(t.slice, ast.Slice) and self.is_element(t.value):
                     keys = self.ev.eval(t.slice, self.env)
                     nid = self.cfg.node_of(n)
-                    rs = RowStore(self.func, n, t, keys, v, kind, elem_expr=t.value, env=self.env)
+                    rs = RowStore(self.func, n, t, keys, v, kind, elem_expr=t.value, env=self.env, flow=self)
                     self._fill_guards(rs, nid, t.value)
                     out.append(rs)
         out.sort(key=lambda r: (r.node.lineno, r.node.col_offset))
@@ -336,6 +340,37 @@ class RowFlow:
             for cond, lv in self.filters.get(cont, []):
                 rs.atoms.extend(self.atoms_for([(cond, True)], {lv} if lv else set()))
             break
+
+    def slice_atoms(self, rs: "RowStore") -> List[Atom]:
+        """Filters of the row containers that the written row set is drawn
+        from through local def-use (backward slice from the enclosing loops
+        and from the element expression): e.g. ``for x in g(sel): rows[m[x.id]][k] = ..``
+        with ``sel = [r for r in rows if cond(r)]`` yields the atoms of cond."""
+        from .util import assignments_to
+
+        start: Set[str] = set()
+        cur = getattr(rs.node, "_parent", None)
+        while cur is not None and cur is not self.func.node:
+            if isinstance(cur, (ast.For, ast.comprehension)):
+                start |= {n.id for n in ast.walk(cur.iter) if isinstance(n, ast.Name)}
+            cur = getattr(cur, "_parent", None)
+        out: List[Atom] = []
+        seen: Set[str] = set()
+        work = [(n, 0) for n in start]
+        while work:
+            name, d = work.pop()
+            if name in seen or d > 5:
+                continue
+            seen.add(name)
+            if name in self.containers and self.filters.get(name):
+                for cond, lv in self.filters[name]:
+                    out.extend(self.atoms_for([(cond, True)], {lv} if lv else set()))
+                continue  # the selection is the source
+            for _, v, _i in assignments_to(self.func, name):
+                for nm in ast.walk(v):
+                    if isinstance(nm, ast.Name):
+                        work.append((nm.id, d + 1))
+        return out
 
     def row_calls(self, resolver) -> List[Tuple[ast.Call, tuple, Dict[str, str]]]:
         """Calls to package functions that receive a container or an
